@@ -269,3 +269,35 @@ _add(mk_he(['na', 'nb', 'a0', 'b0'], 'names', timeout=150))
 _add(mk_he(['ib0', 'cb1', 'a3', 'b3'], 'labels', timeout=150))
 _add(mk_he(['ia0', 'ia1', 'ib0', 'ib1'], 'index', tier='thorough'))
 _add(mk_he(list(HE_DEFAULTS), 'all', tier='thorough', timeout=1500))
+
+
+# ------------------------------------------------------------------------------------------------
+# 6. SeriesHE: == / hash with index labels that are EQUAL but typed differently (datetime64 units)
+
+def mk_series_he(cls_a, cls_b, tier='quick'):
+    def body(env, a0, a1, b0, b1, na, nb):
+        sf = env.sf
+        na, nb = concretize(na, 0, 1), concretize(nb, 0, 1)
+        days = ('2020-01-01', '2020-01-02')
+        ia = getattr(sf, cls_a)(days)
+        ib = getattr(sf, cls_b)(days)
+        sa = sf.SeriesHE(env.array([a0, a1], 'int64'), index=ia, name=na)
+        sb = sf.SeriesHE(env.array([b0, b1], 'int64'), index=ib, name=nb)
+        from vf import rt
+        eq, eq_r, ne = sa == sb, sb == sa, sa != sb
+        # __hash__ reads only the (concrete) labels: evaluated outside the tracer, because CrossHair's hash() patch
+        # answers with an arbitrary number for objects it does not know (np.datetime64)
+        ha, hb = rt.untraced(lambda: (hash(sa), hash(sb)))
+        e = [a0, a1] == [b0, b1] and na == nb
+        got = [isinstance(eq, bool), env.obs(eq), env.obs(eq_r), env.obs(ne), (not eq) or ha == hb]
+        return got, [True, e, e, not e, True]
+    return Cond(f'series_he_eq_hash_{cls_a}_{cls_b}', [('a0', 'int'), ('a1', 'int'), ('b0', 'int'), ('b1', 'int'), ('na', 'int'), ('nb', 'int')], body,
+            ranges={'na': (0, 1), 'nb': (0, 1)},
+            functions=['SeriesHE.__eq__', 'SeriesHE.__hash__', 'Series.equals'],
+            bounds=f'two SeriesHE of 2 over the same two days held as {cls_a} / {cls_b} (datetime64 units differ, labels compare equal); cells symbolic ints, names in 0..1',
+            route='SeriesHE == / != / hash: equal series hash equal whatever the label dtype', mirror=[('a', 'b'), ('na', 'nb')], tier=tier, timeout=240)
+
+
+_add(mk_series_he('IndexDate', 'IndexSecond'))
+_add(mk_series_he('IndexDate', 'IndexNanosecond'))
+_add(mk_series_he('Index', 'IndexDate', tier='thorough'))
